@@ -227,6 +227,12 @@ def wfInsertPath (ops : List Prim) : Bool :=
   | [.exec _ pol, .callCommit, .ret] => pol != .replace
   | _ => false
 
+/-- the path contains an INSERT OR IGNORE: the call can return without having stored its record -/
+def usesOrIgnore (ops : List Prim) : Bool :=
+  ops.any fun
+    | .exec _ .orIgnore => true
+    | _ => false
+
 def wfCommit (C : CommitMethod) : Bool :=
   C.idle == [.connCommit, .ret] && C.deferred == [.incPending, .ret]
 
@@ -310,6 +316,9 @@ structure OpenCfg where
   latest : Nat
   upgrades : List (Nat × List SchemaStmt)
   script : List SchemaStmt
+  /-- with no stored version, `check_database` looks at the record table (PRAGMA table_info) and treats a table
+      without the newest column as the oldest upgradable version instead of assuming the latest -/
+  detectsOld : Bool := false
   deriving DecidableEq, Repr
 
 /-- `_prepare_version`: with an `option` table but no version row, `next()` on the empty result raises
@@ -320,7 +329,9 @@ def versionReadOk (handlers : List ExcKind) (s : OpenSt) : Bool :=
 /-- `check_database`: the statements `open()` runs on file state `s`: the upgrade scripts from the stored version
     (0 / missing = latest) up to the latest one, then the schema script -/
 def openStmts (cfg : OpenCfg) (s : OpenSt) : List SchemaStmt :=
-  let v := if s.option && s.version && s.ver != 0 then s.ver else cfg.latest
+  let oldest := (cfg.upgrades.map (·.1)).foldl min cfg.latest
+  let v := if s.option && s.version && s.ver != 0 then s.ver
+           else if cfg.detectsOld && !s.col then oldest else cfg.latest
   ((cfg.upgrades.filter (fun u => v ≤ u.1 && u.1 < cfg.latest)).map (·.2)).flatten ++ cfg.script
 
 def fresh (s : OpenSt) : RunSt := { committed := s, working := s }
@@ -336,6 +347,12 @@ def openOk (cfg : OpenCfg) (s : OpenSt) : Bool :=
 /-- file state after a complete `open()` -/
 def openEnd (cfg : OpenCfg) (s : OpenSt) : OpenSt := (runTx (openStmts cfg s) (fresh s)).1.committed
 
+/-- inside an upgrade script: after `ALTER TABLE … ADD` the new column is filled before the transaction commits -/
+def upgradeFills : List SchemaStmt → Bool
+  | [] => true
+  | .alterAddCol :: rest => (rest.takeWhile (· != .commit)).contains .fillCol && upgradeFills rest
+  | _ :: rest => upgradeFills rest
+
 def OpenSt.flags (s : OpenSt) : OpenSt := { s with tables := [] }
 
 def prefixes {α : Type} : List α → List (List α)
@@ -347,11 +364,14 @@ def flagStates (maxVer : Nat) : List OpenSt :=
   [false, true].flatMap fun o => [false, true].flatMap fun v => [false, true].flatMap fun c =>
     (List.range (maxVer + 1)).map fun n => { tables := [], option := o, version := v, ver := n, col := c }
 
-/-- a file lacks the column a newer version adds exactly when its version row says it is older (what every release
-    writes; a kill must not lead out of it — the pre-6e6fbfe upgrade did) -/
+/-- file states releases and kills can produce: a version row lives in the option table; when the stored version is
+    known, the column a newer version adds is there exactly when the file says it is of that version (the half-upgraded
+    state "says older, has the column" is what the pre-6e6fbfe upgrade left and is not repaired); when no version is
+    stored (a release was killed before it wrote one) the column may be missing if the class has upgrades at all -/
 def consistent (cfg : OpenCfg) (s : OpenSt) : Bool :=
-  (!s.version || s.option) &&        -- a version row lives in the option table
-  (s.col != (s.option && s.version && decide (0 < s.ver) && decide (s.ver < cfg.latest)))
+  (!s.version || s.option) &&
+  (if s.option && s.version && s.ver != 0 then s.col == decide (cfg.latest ≤ s.ver)
+   else s.col || !cfg.upgrades.isEmpty)
 
 /-- decidable summary of "open is safe" on the table-free states: from each, after a kill behind any prefix of the
     statements that open() runs there, a complete open raises nothing and ends with option table, version row of the
